@@ -257,3 +257,761 @@ def rule_inplace(ctx, floor=4):
     got = {op: sorted(unguarded_emissions(pcf, op, {'/', '//', '%'})[0]) for op in ('/', '//', '%')}
     r.positive_control(got == {'/': [], '//': ['generate_buffer_setitem_code'], '%': []}, "guard tests the source operator, so '//' slips through")
     return r
+
+
+# ====================================================================================================================================
+# C03-GUARD: the run-time guards the DivNode family emits in front of its PyErr_SetString calls are the mathematical conditions
+# C03-RAISE: every emitted raise is followed by the error jump and, inside nogil code, bracketed by the GIL
+# ====================================================================================================================================
+"""(C03-GUARD)  generate_div_warning_code emits C text of the shape
+
+        if (<zero test of the divisor>) { PyErr_SetString(PyExc_ZeroDivisionError ...); goto error; }
+        else if (<constant part> && <divisor == -1> && <__Pyx_UNARY_NEG_WOULD_OVERFLOW(dividend)>) { PyErr_SetString(PyExc_OverflowError ...) ... }
+
+Each guard is extracted as a C condition over the *roles* dividend a, divisor b, result type T, divisor type T2 (locals and alternative
+assignments of a template variable are followed; every alternative is an instance), the macros it uses are taken from the utility
+catalogue, and the condition is evaluated by the checker's typed C evaluator (rules/pC03.py: promotions, conversions, casts) as a truth
+table over  T in {int, long, long long} x {ILP32, LP64, LLP64} x the complete boundary partition of (a, b):
+
+    ZeroDivisionError guard:  true  <=>  b == 0
+    OverflowError guard:      true   =>  a == MIN(T) and b == -1        (C03: every quotient that fits is delivered, e.g. 0 // -1, MIN // 1)
+                              and it is emitted only for operators whose quotient can overflow, i.e. not for '%' (path condition)
+    (C04 reads the converse from the same table: where the compile-time part of the guard holds, guard(MIN, -1) is true.)
+
+(C03-RAISE)  after every emitted PyErr_SetString the error jump (code.error_goto / put_goto(error_label)) is emitted before the block is
+closed, and on paths on which `in_nogil` holds the raise lies between put_ensure_gil() and put_release_ensured_gil()."""
+import re
+
+from ..engine.pyindex import walk_no_nested, is_self_attr
+from ..engine import cexpr
+from ..engine.cutil import strip_c_comments
+from .iface import str_template, PLACEHOLDER, local_env
+from . import pC03 as MC
+
+GUARD_RID = 'C03-GUARD'
+RAISE_RID = 'C03-RAISE'
+ROLE_T, ROLE_T2, ROLE_A, ROLE_B = 'sa_res_t', 'sa_op2_t', 'sa_a', 'sa_b'
+TYPE_SPELLING = r"(?:empty_declaration_code\(\)|declaration_code\((?:''|\"\")\)|sign_and_name\(\))"
+DATA_MODELS = {'ILP32': (32, 32), 'LP64': (64, 64), 'LLP64': (32, 64)}       # bits of long, of size_t
+RESULT_TYPES = ('int', 'long', 'long long')
+
+
+class _Unmodelled(Exception):
+    pass
+
+
+class _Skipped(str):
+    """an alternative of a template variable that could not be rendered (carried along so that it is reported as not decided)"""
+
+
+def _role(src):
+    src = src.replace(' ', '')
+    if re.fullmatch(r'self\.type\.' + TYPE_SPELLING, src):
+        return ROLE_T
+    if re.fullmatch(r'self\.operand2\.type\.' + TYPE_SPELLING, src):
+        return ROLE_T2
+    if src == 'self.operand1.result()':
+        return ROLE_A
+    if src == 'self.operand2.result()':
+        return ROLE_B
+    return None
+
+
+def render(node, env, depth=0, resolver=None):
+    """alternative C texts of an emitted-string expression, dynamic parts replaced by role names; raises _Unmodelled.
+    resolver(method name) -> FunctionDef of a method of the node class that builds a piece of text (its return values are the alternatives)"""
+    if depth > 5:
+        raise _Unmodelled('template nesting too deep')
+    if resolver is not None and isinstance(node, ast.Call) and isinstance(node.func, ast.Attribute) and isinstance(node.func.value, ast.Name) \
+            and node.func.value.id == 'self' and not node.args and not node.keywords and _role(ast.unparse(node)) is None:
+        m = resolver(node.func.attr)
+        if m is not None:
+            menv = local_env(m)
+            out, errs = [], []
+            for n2 in walk_no_nested(m):
+                if isinstance(n2, ast.Return) and n2.value is not None:
+                    try:
+                        out += render(n2.value, menv, depth + 1, resolver)
+                    except _Unmodelled as u:
+                        errs.append(str(u))
+            if out:
+                return out + [_Skipped(e) for e in errs]
+    if isinstance(node, ast.Name):
+        vals = env.get(node.id)
+        if not vals:
+            raise _Unmodelled('local %s has no simple assignment' % node.id)
+        out, errs = [], []
+        for v in vals:
+            try:
+                out += render(v, env, depth + 1, resolver)
+            except _Unmodelled as u:
+                errs.append(str(u))
+        if not out:
+            raise _Unmodelled('; '.join(errs))
+        for e in errs:
+            out.append(_Skipped(e))
+        return out
+    role = _role(ast.unparse(node))
+    if role:
+        return [role]
+    t = str_template(node)
+    if t is None:
+        raise _Unmodelled('`%s` is neither emitted text nor one of the roles dividend / divisor / result type / divisor type' % node_src(node, 60))
+    text, phs = t
+    alts = ['']
+    parts = text.split(PLACEHOLDER)
+    for i, p in enumerate(parts):
+        alts = [a if isinstance(a, _Skipped) else a + p for a in alts]
+        if i < len(phs):
+            if phs[i] is None:
+                raise _Unmodelled('format argument missing')
+            sub = render(phs[i], env, depth + 1, resolver)
+            alts = [(s if isinstance(s, _Skipped) else a if isinstance(a, _Skipped) else a + s) for a in alts for s in sub]
+            if len(alts) > 32:
+                raise _Unmodelled('too many alternatives')
+    return alts
+
+
+def _emission(stmt):
+    """the template node of `code.putln(x)` / `code.put(x)` statements"""
+    if isinstance(stmt, ast.Expr) and isinstance(stmt.value, ast.Call) and isinstance(stmt.value.func, ast.Attribute) \
+            and stmt.value.func.attr in ('putln', 'put') and stmt.value.args:
+        return stmt.value.args[0]
+    return None
+
+
+def _const_text(node):
+    return ''.join(x.value for x in ast.walk(node) if isinstance(x, ast.Constant) and isinstance(x.value, str))
+
+
+def raise_sites(fn):
+    """[(exception name, raise statement, guard statement or None, enclosing statement list)] for emitted PyErr_SetString(PyExc_X ...)"""
+    out = []
+    for holder in ast.walk(fn):
+        for field in ('body', 'orelse', 'finalbody'):
+            lst = getattr(holder, field, None)
+            if not isinstance(lst, list):
+                continue
+            for i, st in enumerate(lst):
+                tpl = _emission(st)
+                if tpl is None:
+                    continue
+                m = re.search(r'PyErr_SetString\(\s*PyExc_(\w+)', _const_text(tpl))
+                if not m:
+                    continue
+                guard = None
+                for prev in reversed(lst[:i]):
+                    pt = _emission(prev)
+                    if pt is not None and re.search(r'\bif\b', _const_text(pt)):
+                        guard = prev
+                        break
+                    if pt is not None and '}' in _const_text(pt):
+                        break
+                out.append((m.group(1), st, guard, lst))
+    return out
+
+
+def _condition(text):
+    m = re.search(r'\bif\s*\(', text)
+    if not m:
+        raise _Unmodelled('no `if (` in the guard text %r' % text[:60])
+    rp = MC.match_paren(text, m.end() - 1)
+    if rp < 0:
+        raise _Unmodelled('unbalanced guard text %r' % text[:60])
+    return ' '.join(text[m.end():rp].split())
+
+
+def _conjuncts(e):
+    while e[0] == 'call' and e[1] in ('likely', 'unlikely') and len(e[2]) == 1:
+        e = e[2][0]
+    if e[0] == 'bin' and e[1] == '&&':
+        return _conjuncts(e[2]) + _conjuncts(e[3])
+    return [e]
+
+
+def _mentions_value(e):
+    return any(x[0] == 'id' and x[1] in (ROLE_A, ROLE_B) for x in cexpr.walk(e))
+
+
+def boundary(bits, signed=True):
+    s = set(range(-3, 4))
+    for p in (7, 8, 15, 16, 31, 32, 63, 64):
+        for d in (-2, -1, 0, 1, 2):
+            s.add((1 << p) + d)
+            s.add(-(1 << p) + d)
+    lo, hi = MC.lo_hi(bits, signed)
+    s |= {lo, lo + 1, lo + 2, hi - 2, hi - 1, hi, lo // 2, hi // 2}
+    return sorted(v for v in s if lo <= v <= hi)
+
+
+def guard_macros(ctx, cond):
+    defs = {}
+    todo = set(re.findall(r'\b(__P[Yy][Xx]_\w+)\s*\(', cond))
+    while todo:
+        name = todo.pop()
+        if name in defs:
+            continue
+        ds = [d for d in ctx.cat.decls.get(name, []) if d.kind == 'macro']
+        if len(ds) != 1:
+            raise AnalysisError('%s: macro %s used by an emitted guard has %d definitions in Cython/Utility' % (GUARD_RID, name, len(ds)))
+        body = ' '.join((ds[0].body or '').replace('\\\n', ' ').split())
+        defs[name] = ([p.strip() for p in (ds[0].params or [])], body)
+        todo |= set(re.findall(r'\b(__P[Yy][Xx]_\w+)\s*\(', body))
+    return defs
+
+
+def guard_table(ctx, cond, defs, op2_signed_only=False):
+    """evaluate the guard condition over types x data models x boundary pairs.
+    -> list of rows (model, T, a, b, value | 'UB:<msg>', live) ; live = truth of the conjuncts that mention neither a nor b"""
+    rows = []
+    cache = {}
+    for mname, (lbits, pbits) in DATA_MODELS.items():
+        base = {'char': (8, True), 'short': (16, True), 'int': (32, True), 'long': (lbits, True), 'long long': (64, True),
+                'size_t': (pbits, False), 'Py_ssize_t': (pbits, True)}
+        for tname in RESULT_TYPES:
+            t = base[tname]
+            types = dict(base)
+            types[ROLE_T] = t
+            types[ROLE_T2] = t
+            model = MC.Model(types, mname)
+            it = MC.Interp(model, {}, defs, {}, cache)
+            e = it.parse(cond)
+            static = [c for c in _conjuncts(e) if not _mentions_value(c)]
+            try:
+                live = all(it.ev(c, [{}])[0] for c in static)
+            except MC.CUndefined as u:
+                rows.append((mname, tname, None, None, 'UB:%s' % u, True))
+                continue
+            dom = boundary(t[0])
+            for a in dom:
+                for b in (dom[0], -2, -1, 0, 1, 2, dom[-1]):
+                    env = [{ROLE_A: (a, t[0], True), ROLE_B: (b, t[0], True)}]
+                    try:
+                        v = bool(it.ev(e, env)[0])
+                    except MC.CUndefined as u:
+                        v = 'UB:%s' % u
+                    rows.append((mname, tname, a, b, v, live))
+    return rows
+
+
+def guard_problems(kind, rows):
+    """[(key suffix, message)] for one guard; kind: ZeroDivisionError | OverflowError"""
+    out = []
+    for mname, tname, a, b, v, live in rows:
+        if isinstance(v, str):
+            out.append(('undefined', 'evaluating the guard for (%s) dividend %s, divisor %s on %s is itself undefined behaviour: %s' % (tname, a, b, mname, v[3:])))
+            break
+    for mname, tname, a, b, v, live in rows:
+        if isinstance(v, str) or a is None:
+            continue
+        bits = {'int': 32, 'long': DATA_MODELS[mname][0], 'long long': 64}[tname]
+        tmin = -(1 << (bits - 1))
+        if kind == 'ZeroDivisionError':
+            if v != (b == 0):
+                out.append(('zero-test', 'for a %s divisor %d (%s) the emitted zero test is %s: %s' % (
+                    tname, b, mname, v, 'a non-zero divisor raises ZeroDivisionError' if v else 'a zero divisor reaches the C division (SIGFPE)')))
+                break
+        elif kind == 'OverflowError':
+            if b == 0:
+                continue        # the guard is the else-branch of the zero test
+            if v and not (a == tmin and b == -1):
+                q = a // b
+                out.append(('spurious', 'for the %s operands %d // %d on %s the guard is true although the quotient %d fits the type: OverflowError("value too large to perform division") '
+                                        'is raised instead of delivering %d' % (tname, a, b, mname, q, q)))
+                break
+    return out
+
+
+def detect_problems(rows):
+    """C04 direction: where the compile-time part of the guard holds, (MIN, -1) must be intercepted"""
+    out = []
+    for mname, tname, a, b, v, live in rows:
+        if a is None or isinstance(v, str) or not live:
+            continue
+        bits = {'int': 32, 'long': DATA_MODELS[mname][0], 'long long': 64}[tname]
+        if a == -(1 << (bits - 1)) and b == -1 and not v:
+            out.append(('undetected', 'for the %s operands MIN // -1 on %s the compile-time part of the guard holds but the guard as a whole is false: the C division '
+                                      'overflows (SIGFPE on x86) instead of raising OverflowError' % (tname, mname)))
+            break
+    return out
+
+
+def _family_methods(ix, name):
+    base = ix.cls(*DIV_BASE)
+    fam = [base] + list(ix.subclasses(base))
+    return [(c, c.methods[name]) for c in fam if name in c.methods]
+
+
+def collect_guards(ctx):
+    """[(owner class, fn, exception, raise stmt, [(variant index, cond text)] or ('unmodelled', why))]"""
+    ix = ctx.index
+    out = []
+    for c, fn in _family_methods(ix, 'generate_div_warning_code'):
+        fn = inline_self_calls(ix, c, fn)
+        env = local_env(fn)
+        for exc, st, guard, lst in raise_sites(fn):
+            if guard is None:
+                out.append((c, fn, exc, st, ('unmodelled', 'no emitted `if (...)` precedes the raise in its block')))
+                continue
+            def resolver(name, c=c):
+                hit = ix.find_method(c, name)
+                return hit[1] if hit is not None and hit[0].name not in ('ExprNode', 'Node') else None
+            try:
+                texts = render(_emission(guard), env, 0, resolver)
+                conds = []
+                for t in texts:
+                    cnd = t if isinstance(t, _Skipped) else _condition(t)
+                    if cnd not in conds:
+                        conds.append(cnd)
+                out.append((c, fn, exc, st, [(i, cnd) for i, cnd in enumerate(conds)]))
+            except _Unmodelled as u:
+                out.append((c, fn, exc, st, ('unmodelled', str(u))))
+    return out
+
+
+GUARD_POSITIVE = '''
+def generate_div_warning_code(self, code):
+    zero_test = "%s <= 0" % self.operand2.result()
+    code.putln("if (unlikely(%s)) {" % zero_test)
+    code.putln('PyErr_SetString(PyExc_ZeroDivisionError, "x");')
+    code.putln(code.error_goto(self.pos))
+    code.putln("}")
+    code.putln("else if (sizeof(%s) == sizeof(long) && unlikely(%s == -1) && unlikely(((unsigned long)(%s) == 0-(unsigned long)(%s)))) {" % (
+        self.type.empty_declaration_code(), self.operand2.result(), self.operand1.result(), self.operand1.result()))
+    code.putln('PyErr_SetString(PyExc_OverflowError, "x");')
+    code.putln("}")
+'''
+
+
+def rule_guard(ctx, floor=3, direction='C03'):
+    rid = GUARD_RID if direction == 'C03' else 'C04-MINGUARD'
+    desc = ('the emitted zero-division guard is true exactly for a zero divisor; the emitted OverflowError guard is true only for MIN // -1 and is not emitted for %'
+            if direction == 'C03' else
+            'wherever the compile-time part of the emitted MIN / -1 guard holds, the guard as a whole intercepts (MIN, -1): divisor and dividend are tested in their roles')
+    r = Rule(rid, desc + ' (truth table over int/long/long long x ILP32/LP64/LLP64 x the boundary partition of the operands)', floor)
+    rel = 'Cython/Compiler/ExprNodes.py'
+    any_site = False
+    for c, fn, exc, st, conds in collect_guards(ctx):
+        if exc not in ('ZeroDivisionError', 'OverflowError') or (direction == 'C04' and exc != 'OverflowError'):
+            continue
+        any_site = True
+        base_key = '%s.%s:%s' % (c.qual, fn.name, exc)
+        if isinstance(conds, tuple):
+            # a guard text this rule cannot model (e.g. the complex-number zero test built from unary_op('zero')) is not decided here
+            r.info('%s: guard not modelled (%s)' % (base_key, conds[1]))
+            continue
+        for i, cond in conds:
+            key = base_key if len(conds) == 1 else '%s#%d' % (base_key, i)
+            if isinstance(cond, _Skipped):
+                r.info('%s: one alternative of the guard text is not modelled and not decided (%s)' % (key, cond))
+                continue
+            r.inst(key, sample='%s: if (%s)' % (key, cond[:110]))
+            defs = guard_macros(ctx, cond)
+            try:
+                rows = guard_table(ctx, cond, defs)
+            except MC.Unsupported as u:
+                raise AnalysisError('%s: cannot evaluate the emitted guard `%s`: %s' % (rid, cond[:80], u))
+            probs = guard_problems(exc, rows) if direction == 'C03' else detect_problems(rows)
+            for k, msg in probs:
+                r.violate('%s:%s' % (key, k), rel, st.lineno, '%s.%s guards its %s with `if (%s)` (a = dividend, b = divisor, %s = result type): %s'
+                          % (c.qual, fn.name, exc, cond.replace(ROLE_A, 'a').replace(ROLE_B, 'b'), ROLE_T, msg))
+        if direction == 'C03' and exc == 'OverflowError':
+            # path condition: never for '%'
+            from . import pC02 as P
+            target = st.value
+            for tnode, pc in P.path_conditions(fn, lambda n: n is target):
+                tests = [t for t, _ in pc]
+                typed = {'self.operator': ['%']}
+                reach = False
+                try:
+                    for subst, av, vals in P.truth_table(tests, typed):
+                        if P.conj_holds(pc, vals):
+                            reach = True
+                            break
+                except P.Unknown:
+                    reach = False
+                key = base_key + ':operator'
+                r.inst(key, sample='%s: OverflowError emission under %s' % (key, [node_src(t, 40) for t in tests][:4]))
+                if reach:
+                    r.violate(key, rel, st.lineno, "%s.%s emits its OverflowError guard also when self.operator == '%%': MIN %% -1 is 0 and fits every type, "
+                                                   "but the guard raises OverflowError(\"value too large to perform division\") for it" % (c.qual, fn.name))
+    if not any_site:
+        raise AnalysisError('%s: no emitted PyErr_SetString guard found in the DivNode family' % rid)
+    pcf = ast.parse(GUARD_POSITIVE).body[0]
+    env = local_env(pcf)
+    got = {}
+    for exc, st, guard, lst in raise_sites(pcf):
+        cnd = _condition(render(_emission(guard), env)[0])
+        rows = guard_table(ctx, cnd, {})
+        got[exc] = sorted(k for k, _ in guard_problems(exc, rows)) + sorted(k for k, _ in detect_problems(rows))
+    r.positive_control(got == {'ZeroDivisionError': ['zero-test'], 'OverflowError': ['spurious']}, '`b <= 0` as zero test; negation test without the sign conjunct (0 // -1)')
+    return r
+
+
+# ------------------------------------------------------------------------------------------------------------------------------ RAISE
+def raise_protocol(fn):
+    """[(kind, line, message)] : 'no-jump' | 'no-gil' | 'gil-held'"""
+    probs = []
+    # only methods that deal with nogil sections at all (they read in_nogil_context or acquire the GIL somewhere) are held to the bracket
+    handles_nogil = any((isinstance(n, ast.Attribute) and n.attr in ('in_nogil_context', 'put_ensure_gil')) for n in ast.walk(fn))
+
+    def emitted(call):
+        return _const_text(call.args[0]) if call.args else ''
+
+    def tr(node, state):
+        s = set(state)
+        for c in pyflow.calls_in(node):
+            f = c.func
+            if not isinstance(f, ast.Attribute):
+                continue
+            if f.attr == 'put_ensure_gil':
+                s.add('gil')
+            elif f.attr == 'put_release_ensured_gil':
+                s.discard('gil')
+            elif f.attr in ('error_goto', 'put_goto', 'put_error_if_neg', 'error_goto_if', 'error_goto_if_null', 'error_goto_if_neg'):
+                s = {x for x in s if not (isinstance(x, tuple) and x[0] == 'pending')}
+            elif f.attr in ('putln', 'put'):
+                txt = emitted(c)
+                if 'PyErr_SetString' in txt or 'PyErr_Format' in txt:
+                    nogil = None
+                    for fact in state:
+                        if isinstance(fact, tuple) and fact[0] == '?' and fact[1] in ('in_nogil', 'self.in_nogil_context'):
+                            nogil = fact[2]
+                    if nogil is not False and 'gil' not in s and handles_nogil:
+                        s.add(('nogil-raise', c.lineno, True))
+                    s.add(('pending', c.lineno))
+                elif txt.strip().startswith('}'):
+                    for x in list(s):
+                        if isinstance(x, tuple) and x[0] == 'pending':
+                            s.discard(x)
+                            s.add(('no-jump', x[1]))
+        return frozenset(s)
+    o = pyflow.Flow(tr).run(fn)
+    seen = set()
+    for st in o.normal | o.returns:
+        for x in st:
+            if isinstance(x, tuple) and x[0] in ('no-jump', 'pending') and ('j', x[1]) not in seen:
+                seen.add(('j', x[1]))
+                probs.append(('no-jump', x[1], 'the PyErr_SetString emitted at line %d is not followed by an error jump (code.error_goto / put_goto) before its block is closed: '
+                                               'the exception is set but execution continues into the C division' % x[1]))
+            if isinstance(x, tuple) and x[0] == 'nogil-raise' and x[2] is True and ('g', x[1]) not in seen:
+                seen.add(('g', x[1]))
+                probs.append(('no-gil', x[1], 'on a path on which in_nogil can be true the PyErr_SetString emitted at line %d is not preceded by code.put_ensure_gil(): the exception is raised without holding the GIL' % x[1]))
+        if 'gil' in st and ('h', 0) not in seen:
+            seen.add(('h', 0))
+            probs.append(('gil-held', fn.lineno, 'a path leaves the method after put_ensure_gil() without put_release_ensured_gil(): the generated nogil code keeps the GIL state it acquired for raising'))
+    return probs
+
+
+RAISE_POSITIVE = '''
+def generate_div_warning_code(self, code):
+    in_nogil = self.in_nogil_context
+    code.putln("if (unlikely(%s == 0)) {" % self.operand2.result())
+    code.putln('PyErr_SetString(PyExc_ZeroDivisionError, "x");')
+    if in_nogil:
+        code.put_release_ensured_gil()
+    code.putln("}")
+'''
+
+
+def rule_raise(ctx, floor=4):
+    ix = ctx.index
+    r = Rule(RAISE_RID, 'every PyErr_SetString the DivNode family emits is followed by the error jump before its block closes and, under in_nogil, lies between '
+                        'put_ensure_gil() and put_release_ensured_gil()', floor)
+    rel = 'Cython/Compiler/ExprNodes.py'
+    n = 0
+    for c, fn in _family_methods(ix, 'generate_div_warning_code') + _family_methods(ix, 'generate_evaluation_code'):
+        fn = inline_self_calls(ix, c, fn)
+        sites = [s for s in raise_sites(fn)]
+        if not sites:
+            continue
+        for exc, st, guard, lst in sites:
+            n += 1
+            r.inst('%s.%s:%s' % (c.qual, fn.name, exc), sample='%s.%s raises %s (line %d)' % (c.qual, fn.name, exc, st.lineno))
+        for kind, line, msg in raise_protocol(fn):
+            r.violate('%s.%s:%s' % (c.qual, fn.name, kind), rel, line, '%s.%s: %s' % (c.qual, fn.name, msg))
+    if not n:
+        raise AnalysisError('%s: the DivNode family emits no PyErr_SetString any more' % RAISE_RID)
+    pc = {k for k, _l, _m in raise_protocol(ast.parse(RAISE_POSITIVE).body[0])}
+    r.positive_control(pc == {'no-jump', 'no-gil'}, 'raise without error jump and without put_ensure_gil on the nogil path')
+    return r
+
+
+# ====================================================================================================================================
+# C03-HELPERS: the // and % helpers return the floor quotient / the remainder with the divisor's sign (bounded model check)
+# ====================================================================================================================================
+"""(C03-HELPERS)  CMath.c::DivInt / ModInt / ModFloat and their declared copies inside Optimize.c::PyLongBinop
+are width-parametric (premise checked: no integer literal other than 0 and 1, the width only comes from the substituted type).  The helper
+text is evaluated by the checker's C interpreter (rules/pC03.py) for ALL operand pairs (a, b != 0) of a 4-bit signed model type and both
+values of b_is_constant and compared with the definition of Python's // and %:  q = floor(a / b),  r = a - q*b.  The pair (MIN, -1) is
+exempt for // (its quotient does not fit; the guard emitted by DivNode is C03-GUARD's and C04's business) but NOT for %, whose result 0
+fits: executing the C `%` there is undefined behaviour (SIGFPE on x86) and is reported.  ModFloat is evaluated on the integer-valued points
+of the same grid with fmod() modelled as the truncated remainder (for such points it is)."""
+
+HELPERS_RID = 'C03-HELPERS'
+HW = 4
+
+
+def _hmodel(signed=True, wide=False):
+    W = 2 * HW if wide else HW
+    return MC.Model({'char': (W, True), 'short': (W, True), 'int': (W, True), 'long': (W, True), 'long long': (W, True), 'size_t': (W, False),
+                     'sa_t': (W, signed)}, '%d-bit model' % W)
+
+
+def _fmod_hook(it, args, env):
+    a, b = it._int(it.ev(args[0], env)), it._int(it.ev(args[1], env))
+    if b[0] == 0:
+        raise MC.CUndefined('fmod(x, 0)')
+    q = abs(a[0]) // abs(b[0]) * (1 if (a[0] < 0) == (b[0] < 0) else -1)
+    return (a[0] - q * b[0], a[1], a[2])
+
+
+def _ident_hook(it, args, env):
+    return it.ev(args[0], env)
+
+
+def helper_eval(text, fname, kind, extra_params=(), wide=False, skip_min=True, skip_pairs=()):
+    """evaluate function `fname` of instantiated C `text` on the whole grid; kind: 'div' | 'mod' | 'divmod'.  -> (pairs, problem or None)"""
+    funcs = MC.functions(text)
+    if fname not in funcs:
+        raise AnalysisError('%s: %s not found in the instantiated helper text' % (HELPERS_RID, fname))
+    f = funcs[fname]
+    model = _hmodel(True, wide)
+    hooks = {'fmod': _fmod_hook, 'fmodf': _fmod_hook, 'fmodl': _fmod_hook, 'PyLong_FromLong': _ident_hook, 'PyLong_FromLongLong': _ident_hook}
+    cache = {}
+    lo, hi = MC.lo_hi(HW, True)
+    n = 0
+    for extra in (extra_params or [()]):
+        it = MC.Interp(model, funcs, {}, hooks, cache)
+        for a in range(lo, hi + 1):
+            for b in range(lo, hi + 1):
+                if b == 0:
+                    continue
+                q, r = a // b, a % b
+                if kind in ('div', 'divmod') and not MC.fits(q, HW, True) and skip_min:
+                    continue
+                if (a, b) in skip_pairs:
+                    continue
+                n += 1
+                W = 2 * HW if wide else HW
+                args = [(a, W, True), (b, W, True)] + [(x, W, True) for x in extra]
+                where = '%s(%d, %d%s)' % (fname, a, b, ''.join(', %d' % x for x in extra))
+                try:
+                    it.steps = 0
+                    v = it.call_func(f, args)
+                except MC.CUndefined as u:
+                    return n, ('undefined', '%s executes undefined behaviour in C: %s (Python: %d // %d == %d, %d %% %d == %d)' % (where, u, a, b, q, a, b, r))
+                except MC.Goto as g:
+                    raise AnalysisError('%s: goto in %s' % (HELPERS_RID, fname))
+                if kind == 'divmod':
+                    got = tuple(x[0] for x in v) if isinstance(v, tuple) and v and isinstance(v[0], tuple) else None
+                    if got != (q, r):
+                        return n, ('value', '%s returns %s, Python semantics need (%d, %d)' % (where, got, q, r))
+                    continue
+                want = q if kind == 'div' else r
+                if v is None or v[0] != want:
+                    return n, ('value', '%s returns %s, Python semantics need %d (floor quotient %d, remainder %d with the sign of the divisor)'
+                               % (where, None if v is None else v[0], want, q, r))
+    return n, None
+
+
+HELPERS_POSITIVE = '''
+static CYTHON_INLINE sa_t __Pyx_mod_sa(sa_t a, sa_t b, int b_is_constant) {
+    sa_t r = a % b;
+    sa_t adapt_python = ((r != 0) & ((r ^ b) < 0));
+    return r + adapt_python * b;
+}
+'''
+
+
+def _cmath(ctx, sec):
+    d = ctx.cat.files.get('CMath.c', {}).get(sec, {}).get('impl')
+    if d is None:
+        raise AnalysisError('%s: CMath.c::%s vanished' % (HELPERS_RID, sec))
+    text = strip_c_comments(d.raw).replace('%(type)s', 'sa_t').replace('%(type_name)s', 'sa').replace('%(math_h_modifier)s', '').replace('%%', '%')
+    if re.search(r'%\(\w+\)s', text):
+        raise AnalysisError('%s: CMath.c::%s has a substitution key the rule does not know' % (HELPERS_RID, sec))
+    return d, text
+
+
+def rule_helpers(ctx, floor=6):
+    from ..engine.cutil import strip_c_comments as _scc
+    r = Rule(HELPERS_RID, 'DivInt / ModInt / ModFloat and their declared copies in PyLongBinop compute floor quotient and divisor-signed remainder for every '
+                          'operand pair of a %d-bit model type (b_is_constant 0 and 1); MIN %% -1 is answered without executing the C remainder' % HW, floor)
+    ok_sites = set()
+    for sec, fname, kind, wide in (('DivInt', '__Pyx_div_sa', 'div', False), ('ModInt', '__Pyx_mod_sa', 'mod', False), ('ModFloat', '__Pyx_mod_sa', 'mod', True)):
+        d, text = _cmath(ctx, sec)
+        key = 'CMath.c:%s' % sec
+        lits = MC.literals(text)
+        if not lits <= {0, 1}:
+            r.info('%s mentions the integer literal(s) %s: not width-parametric, not decided at the model width' % (key, sorted(lits - {0, 1})))
+            continue
+        try:
+            n, prob = helper_eval(text, fname, kind, extra_params=[(0,), (1,)], wide=wide)
+        except MC.Unsupported as u:
+            raise AnalysisError('%s: %s is outside the modelled C subset: %s' % (HELPERS_RID, key, u))
+        r.inst(key, sample='%s: %d operand pairs x b_is_constant' % (key, n))
+        if prob:
+            r.violate('%s:%s' % (key, prob[0]), 'Cython/Utility/CMath.c', d.line, 'CMath.c::%s: %s' % (sec, prob[1]))
+        else:
+            ok_sites.add(('CMath.c', sec))
+    # declared copies in Optimize.c::PyLongBinop
+    from . import pC02 as P
+    dd = ctx.cat.files.get('Optimize.c', {}).get('PyLongBinop', {}).get('impl')
+    if dd is None:
+        raise AnalysisError('%s: Optimize.c::PyLongBinop vanished' % HELPERS_RID)
+    tree = P.tpl_tree(dd.raw)
+    cop, keyname = P.tpl_assigned_dict(tree, 'c_op')
+    if not cop:
+        raise AnalysisError('%s: PyLongBinop c_op table not found' % HELPERS_RID)
+    for op in sorted(cop):
+        if cop[op] not in ('/', '%') or op == 'TrueDivide':
+            continue
+        expanded = P.tpl_expand(tree, dict(op=op, order='ObjC', ret_type=P.Obj(is_pyobject=True)))
+        for ufile, section, body, ctype, left, right in P.copy_sites(expanded):
+            key = 'Optimize.c:PyLongBinop(%s):%s:%s' % (op, section, ctype)
+            kind = 'div' if 'Div' in section else 'mod'
+            text = 'static sa_t sa_copy(sa_t %s, sa_t %s) %s' % (left, right, re.sub(r'\b(PY_LONG_LONG|long)\b', 'sa_t', body))
+            lits = MC.literals(text)
+            if not lits <= {0, 1}:
+                r.info('%s mentions the literal(s) %s: not decided' % (key, sorted(lits - {0, 1})))
+                continue
+            try:
+                # the object fast path excludes MIN % -1 by its digit-count guard (C36-OVF decides that), so that pair is not demanded of the copy
+                n, prob = helper_eval(text, 'sa_copy', kind, skip_min=True, skip_pairs=((MC.lo_hi(HW, True)[0], -1),) if kind == 'mod' else ())
+            except MC.Unsupported as u:
+                raise AnalysisError('%s: %s is outside the modelled C subset: %s' % (HELPERS_RID, key, u))
+            r.inst(key, sample='%s: %d operand pairs' % (key, n))
+            if prob:
+                r.violate('%s:%s' % (key, prob[0]), 'Cython/Utility/Optimize.c', dd.line, '%s (declared copy of CMath.c::%s): %s' % (key, section, prob[1]))
+            else:
+                ok_sites.add((op, section, ctype))
+    n, prob = helper_eval(HELPERS_POSITIVE, '__Pyx_mod_sa', 'mod', extra_params=[(0,)])
+    r.positive_control(prob is not None and prob[0] == 'undefined', 'ModInt without the b == -1 short cut executes MIN % -1')
+    r.ok_sites = ok_sites
+    return r
+
+
+# ====================================================================================================================================
+# C03-SIMPLE: an operand whose result() is pasted into an emitted guard AND into the division is a simple (side-effect free) node
+# ====================================================================================================================================
+SIMPLE_RID = 'C03-SIMPLE'
+
+
+def pasted_operands(fn):
+    """operand attributes (operand1/operand2) whose .result() is formatted into text emitted by fn"""
+    out = set()
+    for n in walk_no_nested(fn):
+        if isinstance(n, ast.Call) and isinstance(n.func, ast.Attribute) and n.func.attr == 'result' and is_self_attr(n.func.value) \
+                and n.func.value.attr in ('operand1', 'operand2'):
+            out.add(n.func.value.attr)
+    return out
+
+
+def simple_problems(fn, operands):
+    """operands for which `self.<op> = self.<op>.coerce_to_simple(env)` does not run on every path on which self.zerodivision_check is true"""
+    from . import pC02 as P
+    bad = []
+    for op in sorted(operands):
+        sites = []
+        for s in walk_no_nested(fn):
+            if isinstance(s, ast.Assign) and any(is_self_attr(t) and t.attr == op for t in s.targets) and isinstance(s.value, ast.Call) \
+                    and isinstance(s.value.func, ast.Attribute) and s.value.func.attr in ('coerce_to_simple', 'coerce_to_temp') \
+                    and is_self_attr(s.value.func.value) and s.value.func.value.attr == op:
+                for t, pc in P.path_conditions(fn, lambda n, v=s.value: n is v):
+                    sites.append(pc)
+        if not sites:
+            bad.append((op, 'is never coerced to a simple node'))
+            continue
+        tests, spans = [], []
+        for pc in sites:
+            spans.append((len(tests), len(tests) + len(pc)))
+            tests += [t for t, _ in pc]
+        typed = {'self.zerodivision_check': [True], 'self.type.is_pyobject': [False]}
+        for subst, av, vals in P.truth_table(tests, typed):
+            if not any(P.conj_holds(pc, vals[a:b]) for pc, (a, b) in zip(sites, spans)):
+                bad.append((op, 'is not coerced to a simple node when %s although zerodivision_check is set'
+                            % (', '.join('%s is %s' % kv for kv in sorted(av.items())) or 'the zero test is needed')))
+                break
+    return bad
+
+
+def rule_simple(ctx, floor=2):
+    ix = ctx.index
+    r = Rule(SIMPLE_RID, 'operands whose result() is pasted into the guards of generate_div_warning_code are coerced to simple nodes by analyse_operation whenever zerodivision_check is set '
+                         '(the guard text and the division both read result(): a non-simple operand would be evaluated twice)', floor)
+    base = ix.cls(*DIV_BASE)
+    gw = ix.find_method(base, 'generate_div_warning_code')
+    an = ix.find_method(base, 'analyse_operation')
+    if gw is None or an is None:
+        raise AnalysisError('%s: DivNode.generate_div_warning_code / analyse_operation vanished' % SIMPLE_RID)
+    ops = pasted_operands(inline_self_calls(ix, gw[0], gw[1]))
+    if not ops:
+        raise AnalysisError('%s: generate_div_warning_code pastes no operand result into its guards any more' % SIMPLE_RID)
+    for op in sorted(ops):
+        r.inst('%s.analyse_operation:%s' % (an[0].qual, op), sample='%s.analyse_operation coerces self.%s to a simple node' % (an[0].qual, op))
+    for op, why in simple_problems(inline_self_calls(ix, an[0], an[1]), ops):
+        r.violate('%s.analyse_operation:%s' % (an[0].qual, op), an[0].module.rel, an[1].lineno,
+                  '%s.analyse_operation: self.%s %s, but generate_div_warning_code pastes self.%s.result() into the emitted zero / overflow test and the division pastes it again: '
+                  'for `a // f()` the call f() is evaluated twice (the value tested is not the value divided by)' % (an[0].qual, op, why, op))
+    pcf = ast.parse("def analyse_operation(self, env):\n    if not self.type.is_pyobject:\n        self.zerodivision_check = x(env)\n        if env.directives['cdivision_warnings']:\n"
+                    "            self.operand2 = self.operand2.coerce_to_simple(env)\n    return self\n").body[0]
+    r.positive_control([o for o, _ in simple_problems(pcf, {'operand2'})] == ['operand2'], 'coercion only under cdivision_warnings')
+    return r
+
+
+# ====================================================================================================================================
+# helper extraction: `self._emit_x(code, a, b)` statements are replaced by the body of the method they call (one class family, no returns)
+# ====================================================================================================================================
+def inline_self_calls(ix, cls, fn, depth=0, _seen=()):
+    """a copy of fn in which every expression statement `self.m(args...)` that resolves to a method of cls (through its MRO, stopping at ExprNode) whose body
+    contains no `return <value>` is replaced by that body with the parameters renamed to the argument expressions.  Only calls whose arguments are names,
+    attributes or constants are inlined (so that the substitution is a renaming); everything else is left as it is."""
+    import copy
+    if depth > 2:
+        return fn
+    fn = copy.deepcopy(fn) if depth == 0 else fn
+    selfname = fn.args.args[0].arg if fn.args.args else 'self'
+
+    def simple(a):
+        return isinstance(a, (ast.Name, ast.Constant)) or (isinstance(a, ast.Attribute) and simple(a.value))
+
+    def expand(stmts):
+        out = []
+        for st in stmts:
+            for field in ('body', 'orelse', 'finalbody'):
+                sub = getattr(st, field, None)
+                if isinstance(sub, list) and sub and isinstance(sub[0], ast.stmt):
+                    setattr(st, field, expand(sub))
+            call = st.value if isinstance(st, ast.Expr) and isinstance(st.value, ast.Call) else None
+            tgt = None
+            if call is not None and isinstance(call.func, ast.Attribute) and isinstance(call.func.value, ast.Name) and call.func.value.id == selfname \
+                    and not call.keywords and all(simple(a) for a in call.args):
+                hit = ix.find_method(cls, call.func.attr)
+                if hit is not None and hit[0].name not in ('ExprNode', 'Node') and hit[1].name not in _seen and hit[1] is not fn:
+                    m = hit[1]
+                    if len(m.args.args) == len(call.args) + 1 and not m.args.vararg and not m.args.kwarg and \
+                            not any(isinstance(x, ast.Return) and x.value is not None for x in walk_no_nested(m)):
+                        tgt = m
+            if tgt is None:
+                out.append(st)
+                continue
+            sub = {p.arg: a for p, a in zip(tgt.args.args[1:], call.args)}
+            sub[tgt.args.args[0].arg] = ast.Name(id=selfname, ctx=ast.Load())
+
+            class Ren(ast.NodeTransformer):
+                def visit_Name(self, n):
+                    if n.id in sub and isinstance(n.ctx, ast.Load):
+                        return copy.deepcopy(sub[n.id])
+                    return n
+            body = [Ren().visit(copy.deepcopy(s2)) for s2 in tgt.body if not (isinstance(s2, ast.Return) and s2.value is None)]
+            body = [s2 for s2 in body if not (isinstance(s2, ast.Expr) and isinstance(s2.value, ast.Constant))]      # docstring
+            inner = ast.FunctionDef(name=tgt.name, args=fn.args, body=body, decorator_list=[], lineno=st.lineno, col_offset=0)
+            inner = inline_self_calls(ix, cls, inner, depth + 1, _seen + (tgt.name,))
+            for s2 in inner.body:
+                ast.copy_location(s2, st) if not hasattr(s2, 'lineno') else None
+            out.extend(inner.body)
+        return out
+    fn.body = expand(fn.body)
+    ast.fix_missing_locations(fn)
+    return fn
